@@ -228,7 +228,8 @@ def generate(rng, tier):
                 "msg": {"q": [[VT, 12, 0]], "id": 4242}})
     ops.append({"t": round(tc + 0.01, 6), "op": "send", "p": "C", "src_port": 5353,
                 "msg": {"q": [["Victim._http._tcp.local.", 16, 0]], "id": 0}})
-    ops.append({"t": round(tc + 0.015, 6), "op": "send", "p": "X", "src_port": 5353,
+    # (on its own, after the replies to the other canaries have left: their additional sections carry the SRV record too)
+    ops.append({"t": round(tc + 2.2, 6), "op": "send", "p": "X", "src_port": 5353,
                 "msg": {"q": [["Victim._http._tcp.local.", 33, 0]], "id": 0}})
     ops.append({"t": round(tc + 0.02, 6), "op": "register", "h": "H", "svc": canary})
     faults = {"max_delay_us": rng.choice([0, 1000, 50000]), "dup_p": rng.choice([0.0, 0.1]),
@@ -365,11 +366,11 @@ def execute(scenario, seed, overrides=None):
             out.add("C15.canary-mcast-unanswered", "multicast canary TXT query was not answered within 1.3 s "
                     f"({[round(x.t - tc, 3) for x in got2]})")
         # canary 4: a plain query from the former attacker's address is answered like anybody else's
-        sent4 = any(tx.host == "X" and tx.t >= tc for tx in w.net.trace)
+        sent4 = any(tx.host == "X" and tx.t >= tc + 2.2 - 1e-9 for tx in w.net.trace)
         got4 = [tx for tx in w.net.trace if tx.host == "V" and tx.multicast and tx.msg is not None and tx.msg.is_response
-                and tx.t >= tc and any(r.type == wire.T_SRV and r.name.lower() == "victim._http._tcp.local." and r.ttl > 0
+                and tx.t >= tc + 2.2 - 1e-9 and any(r.type == wire.T_SRV and r.name.lower() == "victim._http._tcp.local." and r.ttl > 0
                                        for r in tx.msg.answers + tx.msg.additionals)]
-        if sent4 and v_registered and (not got4 or got4[0].t > tc + 0.015 + 1.3):
+        if sent4 and v_registered and (not got4 or got4[0].t > tc + 2.2 + 1.3):
             out.add("C15.canary-from-attacker-address-unanswered", "a well-formed SRV query sent after the stream from the "
                     f"address the hostile datagrams came from was not answered within 1.3 s ({[round(x.t - tc, 3) for x in got4]})")
         # canary 3: announcement of a fresh service reaches the victim's browser
